@@ -363,6 +363,31 @@ def rule_network(ck):
                     ex_ok = any(isinstance(q, ast.Call) and call_name(q) == "exp" and q.args and any(isinstance(z, ast.Constant) and isinstance(z.value, complex)
                                                                                                        for z in ast.walk(q.args[0])) for q in ast.walk(ex))
                     ck.require(ex_ok, "C06.R3", h, r.expr, ok="unit phasors exp(1j*angle)", bad="no complex exponential exp(1j*angle) in the phase-aware sum", sink="net:exp")
+                    # the rotation is by +angle: exp(1j * rad).  exp(-1j * rad) gives the complex conjugate of every constraint current (same
+                    # magnitudes, mirrored phases) - the values handed out as complex currents are then not the phasor sums
+                    for q in [q for q in ast.walk(ex) if isinstance(q, ast.Call) and call_name(q) == "exp" and q.args]:
+                        coef, rest, todo, known = 1, 0, [(q.args[0], 1)], True
+                        while todo:
+                            t_, sg = todo.pop()
+                            if isinstance(t_, ast.UnaryOp) and isinstance(t_.op, ast.USub):
+                                todo.append((t_.operand, -sg))
+                            elif isinstance(t_, ast.UnaryOp) and isinstance(t_.op, ast.UAdd):
+                                todo.append((t_.operand, sg))
+                            elif isinstance(t_, ast.BinOp) and isinstance(t_.op, ast.Mult):
+                                coef *= sg
+                                todo.append((t_.left, 1))
+                                todo.append((t_.right, 1))
+                            elif isinstance(t_, ast.Constant) and isinstance(t_.value, (int, float, complex)) and not isinstance(t_.value, bool):
+                                coef *= sg * t_.value
+                            elif isinstance(t_, ast.Call) and call_name(t_) in ("deg2rad", "radians"):
+                                coef *= sg
+                                rest += 1
+                            else:
+                                known = False
+                        if known and rest == 1 and isinstance(coef, complex):
+                            ck.require(coef == 1j, "C06.R3", h, q, ok="rotation by +angle: exp(1j * angle)",
+                                       bad=f"the unit phasors are exp({coef} * angle): every complex constraint current comes out as the conjugate / scaled value of the phasor sum",
+                                       sink="net:exp-sign", positive=True)
                     ps = products(ex)
                     ck.require(bool(ps), "C06.R3", h, r.expr, ok="coefficient x phasor schedule product", bad="no product of coefficients and schedule", sink="net:phasor:product")
     ck.require(modes == {True, False}, "C06.R4", h, "both modes", bad=f"constraint_current modes found: {sorted(modes)}", sink="net:modes")
